@@ -269,7 +269,8 @@ def make():
     # -- edges_iter / edges ----------------------------------------------------------
     def edges_iter_ens(c):
         s, d = X('s'), X('d')
-        return [('yields_exactly_edges', z3.ForAll([s, d], c.yP[s, d] == edge(c.h0, c.self.t, s, d)))]
+        return [('yields_exactly_edges', hp.FA([s, d], c.yP[s, d] == edge(c.h0, c.self.t, s, d),
+                                               [c.yP[s, d], succ(c.h0, c.self.t, s)[d]]))]
 
     def ei_l1(lc):
         c = lc.c
@@ -295,7 +296,8 @@ def make():
 
     def edges_ens(c):
         s, d = X('s'), X('d')
-        return [('list_of_edges', z3.ForAll([s, d], c.h1.rel_of(c.res.t)[s, d] == edge(c.h0, c.self.t, s, d))),
+        return [('list_of_edges', hp.FA([s, d], c.h1.rel_of(c.res.t)[s, d] == edge(c.h0, c.self.t, s, d),
+                                        [c.h1.rel_of(c.res.t)[s, d], succ(c.h0, c.self.t, s)[d]])),
                 ('fresh', c.res.t >= c.h0.alloc)]
 
     K.append(Contract(
